@@ -742,12 +742,34 @@ class TextXMetaModel(DebugPrinter):
                 if pre_ref_resolution_callback:
                     pre_ref_resolution_callback(other_model)
 
+            # models cached by earlier loads (they survive a failure of this one)
+            cached_ids = set()
+            if hasattr(self, "_tx_model_repository"):
+                cached_ids = {id(m) for m in self._tx_model_repository.all_models}
+
             model = self._parser_blueprint.clone().get_model_from_str(
                 model_str, debug=debug, pre_ref_resolution_callback=kwargs_callback
             )
 
-            for p in self._model_processors:
-                p(model, self)
+            try:
+                for p in self._model_processors:
+                    p(model, self)
+            except:  # noqa
+                if hasattr(model, "_tx_model_repository"):
+                    # As in `internal_model_from_file`: the models loaded
+                    # by a failing load must not stay cached in the (global)
+                    # repositories (a model without file name is registered
+                    # there under a generated name by some scope providers).
+                    from textx.scoping import (
+                        get_included_models,
+                        remove_models_from_repositories,
+                    )
+
+                    loaded_models = [
+                        m for m in get_included_models(model) if id(m) not in cached_ids
+                    ]
+                    remove_models_from_repositories(loaded_models, loaded_models)
+                raise
         else:
             model = self.internal_model_from_file(
                 file_name,
